@@ -768,6 +768,15 @@ theorem quit_test_unguarded_counterexample (result render : Except Exc Unit) :
     stepRequest (.itemEq 0 ttyQuitLine) [] result render = .died indexError := by
   rfl
 
+/-- NEGATIVE (the hazard behind the finding `cli:UnicodeDecodeError@bin/io.py:readline`): `lines = tty(prompt)` stands outside the inner
+    `try`, so EVERY exception of `tty` / `readline` other than a KeyboardInterrupt — a member of Errors.Error included — ends the session. -/
+theorem tty_raise_unprotected (test : ReqTest) (x : Exc) (hk : x.cls.isA (.bi .KeyboardInterrupt) = false) :
+    stepReq test (.raises x) = .died x := by
+  simp [stepReq, outer, catchesAny, interactiveOuterCatch, hk]
+
+example : stepReq interactiveQuitTest (.raises (Exc.ofBuiltin .UnicodeDecodeError .other)) = .died (Exc.ofBuiltin .UnicodeDecodeError .other) ∧
+    stepReq interactiveQuitTest (.raises (Exc.ofErr .Syntax .other)) = .died (Exc.ofErr .Syntax .other) := ⟨rfl, rfl⟩
+
 /-- What `tty` hands over, for every keyboard transcript: no line of a request is empty, the quit line occurs in a request only as the
     whole quit command, and the call consumed at least one key (so a session of n keys makes at most n calls). -/
 theorem tty_request_shape (keys req rest : List Str) (h : tty keys = some (req, rest)) :
